@@ -7,7 +7,8 @@ from ..core import Result
 use_repo()
 
 from ebpfcat.ebpfcat import (  # noqa: E402
-    Device, DeviceVar, EBPFTerminal, FastSyncGroup, PacketDesc, ProcessDesc,
+    Device, DeviceVar, EBPFTerminal, FastSyncGroup, PacketDesc, PacketVar,
+    ProcessDesc,
     SimpleEtherCat, Struct, SyncGroup, SyncManager, TerminalVar)
 
 PROPERTY = "C19"
@@ -209,9 +210,36 @@ def var_range(case, l, region_start):
     return off, (("bit", bit) if f == "bit" else f)
 
 
+class _Other(Device):
+    a = TerminalVar()
+    b = TerminalVar()
+
+    def program(self):
+        pass
+
+    def update(self):
+        pass
+
+
+def second_group(ec, ts, cls):
+    """another sync group over some of the same terminal objects, with a
+    different frame layout (an extra terminal in front), allocated before
+    the first group's variables are used"""
+    tx, vx = ecat.make_terminal(ec, 99, [("H",), ("B",)], [], use_fmmu=False)
+    d = _Other()
+    d.a = vx[SyncManager.IN, 0]
+    t0 = ts[-1]
+    sm = SyncManager.IN if t0.pdo_in_sz else SyncManager.OUT
+    d.b = PacketVar(t0, sm, 0, "B")
+    sg = cls(ec, [d])
+    sg.allocate()
+    return sg
+
+
 def check_case(case, res):
     rng = random.Random(case["fseed"])
     links = case["links"]
+    shared = case["fseed"] % 3 == 0
     with kern.session() as sess:
         # ---- fast path -----------------------------------------------
         ecf = ecat.OfflineFastEtherCat(sess)
@@ -220,6 +248,9 @@ def check_case(case, res):
         try:
             sgf = FastSyncGroup(ecf, [devf])
             sgf.allocate()
+            if shared:
+                second_group(ecf, tsf, SyncGroup)
+                res.count("terminals_shared_with_a_second_group")
             ld = prog.Loaded(sgf, sess)
             ld.load()
         except Exception as ex:
@@ -237,6 +268,8 @@ def check_case(case, res):
             sgs.next_logical = None
             ecs.next_logical_addr = ecf.next_logical_addr - 0x1000
             sgs.allocate()
+            if shared:
+                second_group(ecs, tss, SyncGroup)
             if sgs.packet.size != sgf.packet.size or any(
                     sgs.pdo_assign.get(a) != sgf.pdo_assign.get(b)
                     for a, b in zip(tss, tsf)):
@@ -257,7 +290,9 @@ def check_case(case, res):
                     if l["mode"] == "write":
                         off, f = var_range(case, l, 0)
                         if isinstance(f, tuple):
-                            vals[i] = rng.getrandbits(1)
+                            # any non-zero value sets the bit
+                            vals[i] = rng.choice([0, 0, 0, 1, 1, 2, 6, 128,
+                                                  255])
                         else:
                             size = struct.calcsize(f)
                             v = rng.getrandbits(8 * size)
@@ -305,7 +340,16 @@ def check_case(case, res):
                 sgs.current_data = bytearray(payload)
                 for i, v in vals.items():
                     setattr(devs, f"dv{i}", v)
-                devs.update()
+                try:
+                    devs.update()
+                except Exception as ex:
+                    res.case([case, rep], nontrivial=True)
+                    res.violation(
+                        "unexplained:slow-path-raised",
+                        f"the device's Python update raised "
+                        f"{type(ex).__name__}: {str(ex)[:100]} for values "
+                        f"{vals}", case=case)
+                    return
                 slow_reads = {i: int(getattr(devs, f"dv{i}")) for i in reads}
                 slow_frame = bytes(sgs.current_data)
                 res.case([case, rep], nontrivial=len(links) >= 2)
